@@ -236,8 +236,9 @@ def build(case, Ms=None):
     if GAMMAS[g] is not None:
         cfg["gamma"] = GAMMAS[g]
     model = M(**cfg)
+    nm = case.get("names")
     teams = [
-        [model.rating(p[0], p[1], p[2] if len(p) > 2 else None) for p in team]
+        [model.rating(p[0], p[1], ("bob" if nm == "same" else None) if nm else (p[2] if len(p) > 2 else None)) for p in team]
         for team in case["teams"]
     ]
     if case.get("ids") == "shared":
